@@ -207,6 +207,12 @@ func (sb *schemaBuilder) buildUnionStruct(typ reflect.Type) error {
 			return fmt.Errorf("bad type %s: union type member must be a pointer to a struct, received %s", name, typ.String())
 		}
 
+		if obj.Name != field.Name {
+			// The executor finds the member that is set through the name of the
+			// embedded field, which is the Go type name.
+			return fmt.Errorf("bad type %s: union member %s must be registered under its Go type name, not as %s", name, field.Name, obj.Name)
+		}
+
 		if union.Types[obj.Name] != nil {
 			return fmt.Errorf("bad type %s: union type member may only appear once", name)
 		}
